@@ -55,6 +55,7 @@ type checkOpts struct {
 	workers                   int
 	seed                      int64
 	timeout                   time.Duration
+	maxWall                   time.Duration // per exploration; exceeding it makes the run inconclusive
 	crossEvery                int
 }
 
@@ -141,6 +142,9 @@ func exploreUnit(o *checkOpts, unit *CheckSpec, patches []SourcePatch, dumpDir s
 	ur.jobs = jobs
 	r := newRun(prog, unit, o.solver, o.timeout)
 	r.seed = o.seed
+	if o.maxWall > 0 {
+		r.deadline = time.Now().Add(o.maxWall)
+	}
 	if dumpDir != "" && o.crossEvery > 0 {
 		// one sub-directory per exploration: units and phases must not overwrite each other's dumps
 		exploreSeq++
@@ -301,6 +305,13 @@ func cmdCheck(args []string) {
 		to = v
 	}
 	o.timeout = time.Duration(to) * time.Second
+	o.maxWall = 20 * time.Minute
+	if *tier == "thorough" {
+		o.maxWall = 90 * time.Minute
+	}
+	if v, ok := spec.MaxWallS[*tier]; ok {
+		o.maxWall = time.Duration(v) * time.Second
+	}
 	o.crossEvery = 97 // every 97th query of each worker is re-decided by the other solvers (capped per worker)
 	if spec.CrossEvery != nil {
 		if v, ok := spec.CrossEvery[*tier]; ok {
